@@ -99,7 +99,7 @@ type Finding struct {
 	Commit    string `json:"commit,omitempty"`
 	What      string `json:"what"`
 	Signature string `json:"signature,omitempty"`
-	Replay    string `json:"replay,omitempty"`
+	Replay    any    `json:"replay,omitempty"`
 }
 
 var (
